@@ -178,6 +178,48 @@ def _task(args):
     return st, vios, sample
 
 
+def _task_order(args):
+    """history independence: every ordered pair of definitions that share a PGN, decoded one after the
+    other on ONE decoder with preferences, must convert like a fresh decoder does"""
+    pgns, seed = args
+    db = refdb.db()
+    maps = [m for m in all_maps() if len(m) == 4 and all(v in ("c", "bar", "deg", "kts", "f", "psi") for v in m.values())][:2]
+    vios = []
+    st = {"cases": 0, "nontrivial": 0, "fields": 0}
+    for pgn in pgns:
+        ds = db.by_pgn[pgn]
+        pays = {}
+        for d in ds:
+            p, n = payloads.build(d, payloads.base_assignment(d, "mid"))
+            pays[d.id] = (p, n)
+        for m in maps:
+            for d1 in ds:
+                for d2 in ds:
+                    if d1 is d2 or not any(f.pq in SI for f in d2.fields):
+                        continue
+                    dec = NMEA2000Decoder(preferred_units=m)
+                    dec_line(dec, pgn, *pays[d1.id])
+                    got = dec_line(dec, pgn, *pays[d2.id])
+                    ref = dec_line(NMEA2000Decoder(), pgn, *pays[d2.id])
+                    st["cases"] += 1
+                    st["nontrivial"] += 1
+                    ddef = d2
+                    if not isinstance(ref, tuple) and ref is not None and ref.id != d2.id:
+                        ddef = db.by_id.get((ref.PGN, ref.id), d2)
+                    for kind, facts, detail in compare(ddef, ref, got, m):
+                        if len(vios) < 40:
+                            vios.append({"kind": kind, "facts": dict(facts, definition=d2.id, after=d1.id, mechanism="depends_on_history"),
+                                         "signature": f"order:{kind}:{pgn}:{d2.id}",
+                                         "detail": f"[PGN {pgn} {d2.id} decoded after {d1.id} on the same decoder, prefs={ {k.name: v for k, v in m.items()} }] {detail}",
+                                         "case": {"pgn": pgn, "definition": d2.id, "after": d1.id, "payload_hex": pays[d2.id][0].to_bytes(pays[d2.id][1], "little").hex(),
+                                                  "map_index": all_maps().index(m)}})
+    return st, vios, None
+
+
+def _dispatch(t):
+    return _task(t[1]) if t[0] == "fields" else _task_order(t[1])
+
+
 def run(ctx):
     db = refdb.db()
     idxs = [d.idx for d in db.defs if any(f.pq for f in d.fields)]
@@ -186,7 +228,11 @@ def run(ctx):
     buckets = [[] for _ in range(nb)]
     for j, i in enumerate(order):
         buckets[j % nb].append(i)
-    results = common.pmap(_task, [(b, ctx.seed) for b in buckets if b])
+    tasks = [("fields", (b, ctx.seed)) for b in buckets if b]
+    multi = sorted(db.multi, key=lambda p: -len(db.multi[p]))
+    for p in multi:
+        tasks.append(("order", ([p], ctx.seed)))
+    results = common.pmap(_dispatch, tasks)
     vios, samples = [], []
     tot = {"cases": 0, "nontrivial": 0, "fields": 0}
     for st, v, s in results:
@@ -202,7 +248,7 @@ def run(ctx):
                 "range ends, mid and a seeded raw; maps = all 144 combinations over the four convertible quantities + case variants "
                 "+ maps naming non-convertible quantities; non-trivial = non-empty map on a definition with a convertible field",
         "samples": samples, "fields_with_physical_quantity": tot["fields"], "preference_maps": len(all_maps()),
-        "bound_completed": "one field off base at a time; all preference maps", "exhaustive": True,
+        "bound_completed": "one field off base at a time; all preference maps; every ordered pair of definitions sharing a PGN on one decoder", "exhaustive": True,
     }
     return {"coverage": cov, "violations": vios,
             "assumptions": ["a field is convertible when its database unit is the SI unit of its quantity (K, Pa, rad, m/s)",
@@ -212,6 +258,9 @@ def run(ctx):
 def replay(ctx, rep):
     c = rep["case"]
     db = refdb.db()
+    if "after" in c:
+        st, v, _ = _task_order(([c["pgn"]], 0))
+        return [x for x in v if x["case"]["definition"] == c["definition"] and x["case"]["after"] == c["after"]][:1]
     defn = db.by_id[(c["pgn"], c["definition"])]
     data = bytes.fromhex(c["payload_hex"])
     p = int.from_bytes(data, "little")
